@@ -10,6 +10,9 @@
 (*   index_unit=       the override rule of LASFile.read                     *)
 (*   dtypes=           list / dict / False                                   *)
 (*   ignore_data       header only                                           *)
+(*   encoding choice   which codec a file on disk is opened with (BOM,       *)
+(*                     encoding=, ad hoc trial of ascii / windows-1252 /     *)
+(*                     latin-1 on the FIRST line) when chardet is not asked  *)
 (*   section routing   which parser a section title selects and under which  *)
 (*                     key of LASFile.sections its content is stored, for    *)
 (*                     1.2 / 2.0 / 3.0 files (algorithm level: the case       *)
@@ -85,10 +88,21 @@ RouteKey(t, vers) ==
            ELSE IF t.letter = "V" THEN "Version" ELSE IF t.letter = "W" THEN "Well" ELSE "own"
 Route(t, vers) == <<IF RouteType(t) = "Las3_Data" THEN "Data" ELSE RouteType(t), RouteKey(t, vers)>>
 
+\* ---- encoding choice (autodetect_encoding = False, so chardet plays no part) ------------------------------------
+\* content classes of the file: "ascii"; "late" = first line ASCII, a latin-1 byte later but within the first 8192 bytes (the
+\* chunk a text-mode readline() decodes); "verylate" = the first non-ASCII byte lies beyond that chunk; "first1252" = a byte in
+\* the first line that windows-1252 decodes; "first81" = a byte in the first line that windows-1252 does not define (0x81)
+EncodingChoice(bom, explicit, content) ==
+    IF bom THEN "utf-8-sig"                              \* a UTF-8 BOM wins, even over an explicit encoding=
+    ELSE IF explicit # "none" THEN explicit
+    ELSE CASE content \in {"ascii", "verylate"} -> "ascii"   \* only the first decoded chunk is tried (later bytes become U+FFFD)
+           [] content \in {"first1252", "late"} -> "windows-1252"
+           [] content = "first81" -> "latin-1"
+
 \* ---- instances -----------------------------------------------------------------
 Perms(S) == {p \in [1..Cardinality(S) -> S] : \A i, j \in DOMAIN p : i # j => p[i] # p[j]}
 Values == {"999.25", "-999.25", "9999.25", "-9999.25", "999", "-999", "9999.99", "2147483647", "32767", "-0.5", "7", "-9999"}
-Stage1 == {"stack", "null", "unit", "dtypes", "route"}
+Stage1 == {"stack", "null", "unit", "dtypes", "route", "enc"}
 Fine(k) ==
     CASE k = "stack" ->
            {[kind |-> "stack", keys |-> p, arg |-> a, sort |-> s,
@@ -108,6 +122,9 @@ Fine(k) ==
       [] k = "route" ->
            {[kind |-> "route", title |-> t, vers |-> v, expect |-> Route(t, v)] :
                t \in [letter : RLetters, lower : BOOLEAN, suffix : RSuffixes], v \in {"1.2", "2.0", "3.0"}}
+      [] k = "enc" ->
+           {[kind |-> "enc", bom |-> b, explicit |-> e, content |-> c, expect |-> EncodingChoice(b, e, c)] :
+               b \in BOOLEAN, e \in {"none", "utf-8", "latin-1", "cp1252"}, c \in {"ascii", "late", "verylate", "first1252", "first81"}}
 Init == stage = 0 /\ inst = [kind |-> "seed"]
 Next == \/ stage = 0 /\ stage' = 1 /\ \E k \in Stage1 : inst' = [kind |-> k]
         \/ stage = 1 /\ stage' = 2 /\ \E x \in Fine(inst.kind) : inst' = x
